@@ -208,3 +208,50 @@ func xrefConstIndex(p *Prog) {
 	}
 	fmt.Println(n, "candidates")
 }
+
+// xrefTypeCoverage lists functions that dispatch on zed.Type (type switch with a panicking
+// default) and the complex kinds they do not mention: a development sweep.
+func xrefTypeCoverage(p *Prog) {
+	kinds := []string{"super.TypeRecord", "super.TypeArray", "super.TypeSet", "super.TypeMap", "super.TypeUnion", "super.TypeEnum", "super.TypeError", "super.TypeNamed", "super.TypeOfType"}
+	for _, fn := range p.Funcs {
+		if strings.HasSuffix(p.Fset.Position(fn.Pos()).Filename, "_test.go") {
+			continue
+		}
+		have := map[string]bool{}
+		byOperand := map[ssa.Value]int{}
+		for _, b := range fn.Blocks {
+			for _, in := range b.Instrs {
+				if ta, ok := in.(*ssa.TypeAssert); ok && namedOf(ta.X.Type()) == "super.Type" {
+					have[namedOf(ta.AssertedType)] = true
+					byOperand[ta.X]++
+				}
+			}
+		}
+		max := 0
+		for _, n := range byOperand {
+			if n > max {
+				max = n
+			}
+		}
+		if max < 4 {
+			continue
+		}
+		panics := false
+		for _, b := range fn.Blocks {
+			for _, in := range b.Instrs {
+				if pn, ok := in.(*ssa.Panic); ok && pn.Pos().IsValid() {
+					panics = true
+				}
+			}
+		}
+		var missing []string
+		for _, k := range kinds {
+			if !have[k] {
+				missing = append(missing, strings.TrimPrefix(k, "super.Type"))
+			}
+		}
+		if len(missing) > 0 {
+			fmt.Printf("%s %s panics=%v missing=%v\n", p.Pos(fn.Pos()), fnName(fn), panics, missing)
+		}
+	}
+}
